@@ -187,6 +187,16 @@ inline int harness_main(int argc, char **argv, const Check &c)
                 run.events = fopen(argv[k + 1], "w");
         if (c.warmup)
             c.warmup();
+        // "sequence": plans that the same process executed before this one
+        // (a violation that depends on what earlier runs left behind in
+        // process-global state is replayed together with that history)
+        if (plan.has("sequence")) {
+            const Json &seq = plan.at("sequence");
+            for (size_t i = 0; i < seq.size(); i++) {
+                Run before(seq[i]);
+                exec_guarded(c, before);
+            }
+        }
         exec_guarded(c, run);
         printf("RESULT %s\n", result_json(run).dump().c_str());
         fflush(stdout);
